@@ -139,7 +139,10 @@ func runScale(c *Config, specs []scaleSpec, workers int) func() {
 		go func() {
 			defer wg.Done()
 			for i := range next {
-				out[i] = scaleLine(specs[i])
+				// keep the rendered text only: the S-expression tree of a plan of 10^6 actions takes gigabytes
+				fs := scaleLine(specs[i])
+				txt := T("x", fs...).String()
+				out[i] = []Sx{A(txt[3 : len(txt)-1])}
 			}
 		}()
 	}
@@ -181,14 +184,15 @@ func scaleSpecs(c *Config) []scaleSpec {
 		}
 		mk("bush", 20000+r.Intn(1000))
 		mk("spine", 1000000)
-		mk("star", 1000000)
-		mk("comb", 1<<19+r.Intn(1000))
+		mk("star", 300000)
+		mk("comb", 1<<17+1+r.Intn(1000))
 	}
 	return specs
 }
 
 func main() {
 	full := flag.Bool("full", false, "thorough tier: all 720 hash orders of every 6-commit DAG (19.2 M plans) instead of every sixth")
+	scaleOnly := flag.Bool("scaleonly", false, "generate the large cases (kinds scale-*) only")
 	c := Setup()
 	defer c.Close()
 	if c.Replay != "" {
@@ -210,6 +214,10 @@ func main() {
 	emitScale := func() {}
 	if c.Tier != "search" {
 		emitScale = runScale(c, scaleSpecs(c), 3)
+	}
+	if *scaleOnly {
+		emitScale()
+		return
 	}
 	all := func(int) bool { return true }
 	conn := func(p [][]int) bool { return pl.Connected(p) }
